@@ -81,7 +81,15 @@ func (fr *frame) call(b *ssa.BasicBlock, site ssa.Instruction, c *ssa.CallCommon
 		for _, cn := range matched {
 			x.regKey("$res:"+cn, "Int")
 			if len(res.ts) > 0 {
-				nh = nh.set("$res:"+cn, asInt(res.ts[0], leaves(rt)[0].Sort))
+				first := asInt(res.ts[0], leaves(rt)[0].Sort)
+				nh = nh.set("$res:"+cn, first)
+				// nthres(name, k): the result of the k-th counted call (k = 1..3)
+				x.regKey("$cnt:"+cn, "Int")
+				for k := 1; k <= 3; k++ {
+					key := fmt.Sprintf("$res:%s@%d", cn, k)
+					x.regKey(key, "Int")
+					nh = nh.set(key, ite(eq(x.hget(nh, "$cnt:"+cn), num(int64(k))), first, x.hget(nh, key)))
+				}
 			}
 			// further result leaves: lastresn(name, k)
 			for k := 1; k < len(res.ts) && k < 12; k++ {
